@@ -190,7 +190,11 @@ func c02(args []string) error {
 				if r.Intn(2) == 0 {
 					stream = []align.Alignment{wa, a, a, wa, a}
 				}
-				fn := filepath.Join(tmpdir, fmt.Sprintf("m%d.phy%s", i, cfg[len("multi-phylip"):]))
+				suffix := cfg[len("multi-phylip"):]
+				if r.Intn(3) == 0 {
+					suffix = "" // a plain file
+				}
+				fn := filepath.Join(tmpdir, fmt.Sprintf("m%d.phy%s", i, suffix))
 				f, e := utils.OpenWriteFile(fn)
 				if e != nil {
 					return e
@@ -205,8 +209,15 @@ func c02(args []string) error {
 					return e
 				}
 				defer fc.Close()
-				ch := align.AlignChannel{Achan: make(chan align.Alignment, 50)}
-				go phylip.NewParser(rd, false).ParseMultiple(&ch)
+				chv := align.AlignChannel{Achan: make(chan align.Alignment, 50)}
+				ch := &chv
+				if r.Intn(2) == 0 { // through format detection, which owns the file until the stream is consumed
+					if ch, _, e = utils.ParseMultiAlignmentsAuto(fc, rd, false, align.BOTH); e != nil {
+						return e
+					}
+				} else {
+					go phylip.NewParser(rd, false).ParseMultiple(ch)
+				}
 				cnt := 0
 				for x := range ch.Achan {
 					if cnt < len(stream) {
